@@ -688,6 +688,16 @@ static void vf_run_one(void)
 #endif
 }
 
+#include <sys/time.h>
+/* the watchdog counts the CPU time of this process, not wall-clock time: a scanner that loops burns CPU and is caught, a
+ * process that is merely not scheduled (a loaded machine) is not mistaken for one */
+static void vf_arm_watchdog(unsigned secs)
+{
+	struct itimerval it;
+	it.it_interval.tv_sec = 0; it.it_interval.tv_usec = 0;
+	it.it_value.tv_sec = (long)secs; it.it_value.tv_usec = 0;
+	setitimer(ITIMER_PROF, &it, (struct itimerval *)0);
+}
 static volatile long vf_wd_last = -1; static volatile int vf_wd_same;
 static void vf_watchdog(int sig)
 {
@@ -700,7 +710,7 @@ static void vf_watchdog(int sig)
 			_exit(0);
 		}
 	} else { vf_wd_same = 0; vf_wd_last = vf_executions; }
-	alarm(2);
+	vf_arm_watchdog(2);
 }
 
 int main(int argc, char **argv)
@@ -713,8 +723,8 @@ int main(int argc, char **argv)
 		else if (!strcmp(argv[i], "-T") && i + 1 < argc) vf_deadline = time((time_t *)0) + atol(argv[++i]);
 	}
 	if (!vf_out) return 5;
-	signal(SIGALRM, vf_watchdog);
-	alarm(2);
+	signal(SIGPROF, vf_watchdog);
+	vf_arm_watchdog(2);
 	for (i = 0; i < VF_NKINDS; i++) vf_budget[i] = VF_BUDGET_DEFAULT;
 	vf_budget[VF_K_ARG] = 1000; vf_kind_free[VF_K_ARG] = 1;
 #ifdef VF_DEEP
